@@ -922,6 +922,19 @@ func nodeIDResolved(c *core.Ctx, rule string) {
 			nUse++
 			idx++
 			literalOnly := strings.HasPrefix(f.Name(), "Parse") || strings.HasPrefix(f.Name(), "MustParse")
+			if literalOnly {
+				// the Node ID IE builder parses the id only to classify it (IPv4 / IPv6 / FQDN): a name is
+				// still announced as a name
+				classifies := false
+				core.Instrs(fn, func(in2 ssa.Instruction) {
+					if c2, ok := in2.(*ssa.Call); ok && core.IsPkgFunc(core.Callee(c2), core.PkgIE, "NewNodeID") {
+						classifies = true
+					}
+				})
+				if classifies {
+					return
+				}
+			}
 			c.Check(rule, fmt.Sprintf("node-id-resolved:%s#%d", core.FnName(fn), idx), cl.Pos(), !literalOnly,
 				"a node id is turned into an address by a resolver (it may be a host name), not by the literal-only "+f.Pkg().Name()+"."+f.Name())
 		})
